@@ -300,9 +300,10 @@ def judgeOut (st : St) (obs : List String) (l : String) : Except Verdict St := d
       .error (.mismatch s!"model output differs from the observed output at index {firstDiff mdl rd}")
     let mdlHints := st.modelOut.toList.map (fun m => match m with | .buffered b _ => b.sizeHint | _ => 0)
     if mdlHints != recvd.map (·.2) then .error (.mismatch s!"size hints: model {mdlHints} observed {recvd.map (·.2)}")
-    if !echoIdentity sent rd then
-      .error (.known "batch-dims-rederived" s!"a batch whose dimension list is not the sorted list of its tag keys came back with dimensions and group re-derived from its tags")
     let mut st := st
+    -- a hand-made header whose dimension list is not the sorted list of its tag keys (no in-tree producer since fix
+    -- a050cea; outside `Item.WF`): judged by the characterisation echoIdentityUpToDims above, not a deviation
+    if !echoIdentity sent rd then st := addBr st "synthetic-header-dims-rederived"
     if ka == "ka=1" then st := addBr st "keepalive-crossed"
     if sent.isEmpty then st := addBr st "session-empty"
     return st
@@ -318,18 +319,16 @@ def judgeTaskAfter (st : St) (before : List Data) (toks : List String) (l : Stri
   let toks := if toks == ["!"] then [] else toks
   let some recvd := toks.mapM parseOut | .error (.badop l)
   let rd := recvd.map (·.1)
-  let dimsDev := before.any devDims
+  -- whatever a real task feeds the UDF node must come back unchanged: no allowance for re-derived dimensions (since fix
+  -- a050cea no node builds a batch header whose dimension list is not the sorted list of its tag keys)
   if !echoIdentity before rd then
-    if !(dimsDev && echoIdentityUpToDims before rd) then
-      let i := firstDiff before rd
-      .error (.specfail "echo-identity" s!"task: {before.length} data messages entered the UDF node, {rd.length} left it; first difference at index {i}: {toks.getD i "nothing"}")
+    let i := firstDiff before rd
+    .error (.specfail "echo-identity" s!"task: {before.length} data messages entered the UDF node, {rd.length} left it; first difference at index {i}: {toks.getD i "nothing"}")
   -- the model, fed with what entered the UDF node
   let st ← runModel st (before.map dataToMsg)
   let some mdl := st.modelOut.toList.mapM edgeToData | .error (.mismatch "model emitted a non-data message")
   if !echoIdentity mdl rd then
     .error (.mismatch s!"task: model output differs from what left the UDF node at index {firstDiff mdl rd}")
-  if !echoIdentity before rd then
-    .error (.known "batch-dims-rederived" "task with groupBy naming a dimension twice: batches left the UDF node with dimensions and group re-derived from their tags")
   let mut st := st
   for d in before do
     match d with
